@@ -110,28 +110,73 @@ def rule_q3_q4(repo, col):
         col.decide("Q4", m, f.node, "self.__active" in s and "self._reindex_vars(goal)" in s and s.count("self.__active") == 1, "%s keys the active table through _reindex_vars" % name,
                    "%s must key self.__active with self._reindex_vars(goal): otherwise the cycle check misses (or confuses) active variants" % name,
                    construct="def %s: key" % name, function="DefineCache.%s" % name)
+    from .. import dtable
+    import re as _re
+
     for name in ("__setitem__", "__getitem__", "__delitem__", "__contains__"):
         f = c.methods.get(name)
         if f is None:
             raise AnalysisError("DefineCache.%s missing" % name)
-        ifs = [n for n in walk_no_nested(f.node) if isinstance(n, ast.If) and norm(n.test) == "is_ground(*args)"]
-        if len(ifs) != 1:
-            raise AnalysisError("DefineCache.%s: ground/non-ground split not found" % name)
-        gi = ifs[0]
-        gsrc = "\n".join(norm(s) for s in gi.body)
-        nsrc = "\n".join(norm(s) for s in gi.orelse)
-        okg = "self.__ground" in gsrc and "self.__non_ground" not in gsrc and "_reindex_vars" not in gsrc
-        okn = "self.__non_ground" in nsrc and "goal = self._reindex_vars(goal)" in nsrc and nsrc.index("goal = self._reindex_vars(goal)") < nsrc.index("self.__non_ground")
-        col.decide("Q4", m, gi, okg and okn, "%s: ground goals use the ground table keyed by the goal, non-ground goals the variant table keyed through _reindex_vars" % name,
-                   "%s must use self.__ground[goal] for ground goals and self.__non_ground[self._reindex_vars(goal)] for non-ground ones (writer and readers must agree on the key)" % name,
+        goal = f.params[1]
+        paths = dtable.extract(f.node, opaque_loops=True)
+        problems = []
+        seen_g = seen_n = 0
+        for p_ in paths:
+            cd = dict((s_, t) for s_, t, _ in p_.conds)
+            gr = [t for s_, t in cd.items() if s_.startswith("is_ground(*")]
+            if cd.get("self.is_dont_cache(%s)" % goal):
+                continue
+            if not gr:
+                raise AnalysisError("DefineCache.%s: a path without the ground/non-ground split" % name)
+            ground = gr[0]
+            texts = [a[0] for fn, a, _ in p_.calls if fn in ("<store>", "<del>")] + ([p_.value] if p_.value else [])
+            blob = " ; ".join(texts)
+            ng_keys = _re.findall(r"self\.__non_ground\[(.*?)\](?:\.|$| ;)", blob) + _re.findall(r"(\S+(?:\(.*?\))?) in self\.__non_ground", blob)
+            g_used = "self.__ground" in blob
+            n_used = "self.__non_ground" in blob
+            if ground:
+                seen_g += 1
+                if n_used or not g_used:
+                    problems.append("a ground goal must use the ground table only (found %s)" % blob[:80])
+                if "_reindex_vars" in blob:
+                    problems.append("a ground goal is keyed by the goal itself, not through _reindex_vars")
+            else:
+                seen_n += 1
+                if not n_used:
+                    problems.append("a non-ground goal must use the variant table self.__non_ground (found %s)" % blob[:80])
+                if n_used and "self.__non_ground[self._reindex_vars(%s)]" % goal not in blob and "self._reindex_vars(%s) in self.__non_ground" % goal not in blob:
+                    problems.append("the variant table must be keyed with self._reindex_vars(goal) (found %s)" % blob[:100])
+        if seen_g < 1 or seen_n < 1:
+            raise AnalysisError("DefineCache.%s: ground/non-ground paths not found" % name)
+        col.decide("Q4", m, f.node, not problems, "%s: ground goals use the ground table keyed by the goal, non-ground goals the variant table keyed through _reindex_vars" % name,
+                   "%s: %s (writer and readers must agree on the key)" % (name, "; ".join(sorted(set(problems)))),
                    construct="def %s: key discipline" % name, function="DefineCache.%s" % name)
     vr = repo.cls(ES, "VarReindex")
     gi = vr.methods.get("__getitem__")
-    s = norm(gi.node)
-    okv = "if var is None:" in s and "return var" in s and "if var in self.n:" in s and "return self.n[var]" in s and "self.v -= 1" in s and "self.n[var] = self.v" in s
-    col.decide("Q4", vr.module, gi.node, okv, "VarReindex maps each variable to one fresh negative index and leaves None alone",
-               "VarReindex.__getitem__ must return the stored index for a known variable, allocate the next negative index for a new one and return None unchanged",
-               construct="def VarReindex.__getitem__", function="VarReindex.__getitem__")
+    var = gi.params[1]
+    paths = dtable.extract(gi.node)
+    problems = []
+    kinds = set()
+    for p_ in paths:
+        cd = dict((s_, t) for s_, t, _ in p_.conds)
+        st = [a for fn, a, _ in p_.calls if fn in ("<store>",) or fn.startswith("<augstore")]
+        if cd.get("%s is None" % var):
+            kinds.add("none")
+            if p_.value not in (var, "None") or st:
+                problems.append("None (anonymous variable) must be returned unchanged")
+        elif cd.get("%s in self.n" % var):
+            kinds.add("known")
+            if p_.value != "self.n[%s]" % var or st:
+                problems.append("a known variable must get its recorded index")
+        elif cd.get("%s in self.n" % var) is False:
+            kinds.add("new")
+            tg = sorted(a[0] for a in st)
+            if tg != ["self.n[%s]" % var, "self.v"] or p_.value != "self.v":
+                problems.append("a new variable must get the next fresh (decremented) index, which is recorded and returned (found stores %s, return %s)" % (tg, p_.value))
+    if kinds != {"none", "known", "new"}:
+        raise AnalysisError("VarReindex.__getitem__: cases not found (%s)" % sorted(kinds))
+    col.decide("Q4", vr.module, gi.node, not problems, "VarReindex maps each variable to one fresh negative index and leaves None alone",
+               "VarReindex.__getitem__: %s" % "; ".join(sorted(set(problems))), construct="def VarReindex.__getitem__", function="VarReindex.__getitem__")
 
 
 def run(repo, col):
